@@ -221,7 +221,7 @@ def install(ctx, repo, probes):
         for b in R.MODES:
             if a != b:
                 ctx.target("switch/%s->%s" % (a, b))
-    ctx.target("cli/option", "cli/env", "cli/neither")
+    ctx.target("cli/option", "cli/env", "cli/neither", "cli/both")
 
 
 def run_case(ctx, repo, case):
@@ -266,6 +266,16 @@ def run_case(ctx, repo, case):
                     cur = R.canon(spell)
                 elif how == "env":
                     got = battery.run_cli(repo, cli[name], env_mode=spell)
+                    cur = R.canon(spell)
+                elif how == "both":
+                    # documented order: the option, then the environment
+                    others = [m for m in R.MODES if m != R.canon(spell)]
+                    other = others[len(name) % 3]
+                    if len(spell) % 2:
+                        other = other.replace("day", "_day")
+                    got = battery.run_cli(repo, cli[name],
+                                          mode_opt=R.canon(spell),
+                                          env_mode=other)
                     cur = R.canon(spell)
                 else:
                     got = battery.run_cli(repo, cli[name])
@@ -319,7 +329,7 @@ def workload(ctx, repo):
                 rng.shuffle(order)
                 steps += [["item", n] for n in order]
                 for n in clis:
-                    how = rng.choice(("option", "env", "neither"))
+                    how = rng.choice(("option", "env", "neither", "both"))
                     steps.append(["cli", n, how, rng.choice(spell_of[a])])
                     steps.append(["item", rng.choice(names)])
                     steps.append(["set", rng.choice(spell_of[b])])
@@ -338,7 +348,8 @@ def workload(ctx, repo):
                 steps.append(["item", rng.choice(names)])
             else:
                 steps.append(["cli", rng.choice(clis),
-                              rng.choice(("option", "env", "neither")),
+                              rng.choice(("option", "env", "neither",
+                                          "both")),
                               rng.choice(("gregorian", "360day", "365day",
                                           "366day"))])
         case = {"op": "history", "steps": steps}
